@@ -182,20 +182,22 @@ let run_upclose (parts : string list) : string =
   let x = ifld f "x" in
   (* qfix=1: the tree under test has the K6b fix (QUIC waiters woken when the transport closes during their dial) *)
   let qfix = (fld_opt f "qfix" <> Some "0") in
+  (* k6=0: the tree before the K6a / K6c / K6d fixes (https without connTracker, quic / h3 keep their UDP socket) *)
+  let k6 = (fld_opt f "k6" <> Some "0") in
   match close_calls pinned (nat_of_int 16) (upstream_closee k) with
   | Ok _ ->
-    let leak = int_of_nat (up_leak k) in
+    let leak = int_of_nat (up_leak k6 k) in
     let spec_bits =
       (if leak = 0 then [] else ["leak"])
-      @ (if x = 2 then (if up_inflight_prompt qfix k then [] else ["inflight-waits-for-own-deadline"])
-         else (if up_after_fails k (x = 1) then [] else ["exchange-after-close-succeeds"])) in
+      @ (if x = 2 then (if up_inflight_prompt k6 qfix k then [] else ["inflight-waits-for-own-deadline"])
+         else (if up_after_fails k6 k (x = 1) then [] else ["exchange-after-close-succeeds"])) in
     let spec = if spec_bits = [] then "ok" else "FAIL:" ^ String.concat "+" spec_bits in
     if x = 2 then
       Printf.sprintf "close=ok close2=ok inflight=%s leak=%d || spec=%s"
-        (if up_inflight_prompt qfix k then "prompt" else "deadline") leak spec
+        (if up_inflight_prompt k6 qfix k then "prompt" else "deadline") leak spec
     else
       Printf.sprintf "close=ok close2=ok after=%s leak=%d || spec=%s"
-        (if up_after_fails k (x = 1) then "err" else "ok") leak spec
+        (if up_after_fails k6 k (x = 1) then "err" else "ok") leak spec
   | OutOfFuel -> "CRASH || spec=FAIL:close-does-not-terminate"
   | _ -> "PANIC! || spec=FAIL"
 
@@ -240,5 +242,40 @@ let run_startup (parts : string list) : string =
    | _ -> Printf.sprintf "PANIC! || spec=%s" spec2)
 
 let () = register "closerace" run_closerace
+(* ---- upown: the upstream as a composite of the transports / sockets it owns (Net/ShutdownOwn.v) ----
+   case:   <id> up=<kind> plan=<ok|tc|mu|tm,..|-> [q0=<n>] [alpn=h1]
+   result: close=ok close2=ok pre=<udp>/<tcp> infl=<err|ok|late,..|-> after=<err|ok> legs=<..|-> udp=<n> tcp=<n> srv=<n> *)
+let run_upown (parts : string list) : string =
+  let f = fields parts in
+  let up = fld f "up" in
+  let k = ukind_of up in
+  let mux = (fld_opt f "alpn" <> Some "h1") in
+  let plan = List.filter (fun s -> s <> "" && s <> "-") (String.split_on_char ',' (fld f "plan")) in
+  let plan = List.map (fun s -> match s with
+      | "ok" -> UoPlOk | "tc" -> UoPlTc | "mu" -> UoPlMute | "tm" -> UoPlTcMute
+      | _ -> failwith ("upown: unknown plan step " ^ s)) plan in
+  match uo_plan_run k mux (uo_new k) plan [] with
+  | None -> "MODEL-STUCK || spec=FAIL:plan-not-applicable"
+  | Some (s, hs) ->
+    let cnt st udp = int_of_nat (uo_sockets k udp st) in
+    let pre = if fld_opt f "q0" <> None || not mux then "-" else Printf.sprintf "%d/%d" (cnt s true) (cnt s false) in
+    let s1 = uo_close_settled k s in
+    let s2 = uo_close_settled k s1 in
+    let infl = List.map (fun h -> match uo_result s2 h with Some false -> "err" | Some true -> "ok" | None -> "late") hs in
+    let fails i = if uo_new_fails k s2 (nat_of_int i) then "err" else "ok" in
+    let after = fails 0 in
+    let legs = if up = "udp" then fails 0 ^ "," ^ fails 1 else "-" in
+    let nu = cnt s2 true and nt = cnt s2 false in
+    let spec_bits =
+      (if uo_all_closed s1 && uo_all_closed s2 then [] else ["owned-part-not-closed"])
+      @ (if uo_all_eff_once s1 && uo_all_eff_once s2 then [] else ["part-not-closed-exactly-once"])
+      @ (if nu = 0 && nt = 0 then [] else ["leak"])
+      @ (if List.for_all (fun r -> r = "err") infl then [] else ["inflight-does-not-fail"])
+      @ (if after = "err" && (legs = "-" || legs = "err,err") then [] else ["exchange-after-close-succeeds"]) in
+    let spec = if spec_bits = [] then "ok" else "FAIL:" ^ String.concat "+" spec_bits in
+    Printf.sprintf "close=ok close2=ok pre=%s infl=%s after=%s legs=%s udp=%d tcp=%d srv=%d || spec=%s"
+      pre (if infl = [] then "-" else String.concat "," infl) after legs nu nt nt spec
+
 let () = register "upclose" run_upclose
+let () = register "upown" run_upown
 let () = register "startup" run_startup
